@@ -659,6 +659,25 @@ def k_choice_extra_suffix(f, rng):
     return Exp(r"On the 'choices' sheet, the '%s' value is invalid" % re.escape(base), "none")
 
 
+@kind("survey-column-with-unsupported-suffix", 3)
+def k_survey_suffix(f, rng):
+    """A language (or any further ::part) on a survey column that is not translatable: the cell would be grouped into a dict where text is expected."""
+    uses_double = any("::" in h for r, _ in f.walk() for h in r.cells) or any("::" in h for l_ in f.choices.values() for c_ in l_ for h in c_)
+    # (columns that are spellings of body:: attributes - appearance, repeat_count - are left out: three-part body headers such as body:esri:style are in use)
+    col = pick(rng, ["type", "name", "save_to", "parameters", "trigger", "default", "relevant", "required", "constraint", "calculation", "read_only", "choice_filter",
+                     "disabled", "intent", "label::English", "hint::fr", "image::en", "constraint_message::en", "bind::a"])
+    hdr = col + "::" + pick(rng, ["en", "English (en)", "x"])
+    rows = [r for r, _ in f.walk() if r.kind == "q" and r.type != "audit"]
+    if not rows:
+        return None
+    r = pick(rng, rows)
+    r.cells[hdr] = pick(rng, ["x", "yes", "1"])
+    e = Exp(r"On the 'survey' sheet, the '[^']+' column has a '::' \(or ':'\) part that is not supported", "none",
+            alt_patterns=(r"different names for the same column",))
+    e.sub = "core" if col in ("type", "name") else "other"
+    return e
+
+
 @kind("reserved-column-name", 3)
 def k_reserved_column(f, rng):
     """Column names taken by the converter's own element classes, and grouped columns written without their attribute (bind instead of bind::x)."""
